@@ -214,6 +214,13 @@ void sk_fs_add(const char *path, int flags)
 static int fs_lookup(const char *path)
 {
   for (int i = 0; i < K->nfs; i++) if (strcmp(K->str + K->fs[i].path, path) == 0) return K->fs[i].flags;
+  /* FS_SUFFIX entries match any path that ends with them (used with synthetic, very long working directories) */
+  size_t pl = strlen(path);
+  for (int i = 0; i < K->nfs; i++) {
+    const char *e = K->str + K->fs[i].path;
+    size_t el = strlen(e);
+    if ((K->fs[i].flags & FS_SUFFIX) && pl >= el && strcmp(path + pl - el, e) == 0) return K->fs[i].flags;
+  }
   return 0;
 }
 
@@ -603,6 +610,7 @@ static int do_exec(const char *file, char *const argv[], char *const envp[])
   int e = fault(FK_EXEC);
   if (e) { errno = e; return -1; }
   if (sk_cur == 0) { sk_mon(MON_UNSUPPORTED, LK_EXEC, 0); errno = ENOSYS; return -1; }
+  if (strlen(file) >= 4096) { errno = ENAMETOOLONG; return -1; }
   int fl = fs_lookup(file);
   if (!(fl & FS_EXISTS)) { errno = ENOENT; return -1; }
   if (fl & FS_DIR) { errno = EACCES; return -1; }
